@@ -7,6 +7,8 @@ import (
 	"errors"
 	"fmt"
 	"io"
+	"os"
+	"path/filepath"
 	"reflect"
 	"strconv"
 	"strings"
@@ -27,15 +29,22 @@ type sop struct {
 	MB   int    // index into storeBoxes
 	Ref  string // "#1" "#2" "latest" "nope" ""
 	Body int
-	Size int  // add: when > 0 the body is exactly Size bytes
-	Same bool // add: the received date equals that of the other "same" deliveries (copies of one mail to several recipients share it); age order is arrival order
-	Zero bool // add: the received date is the zero time (what is written is what reads back)
-	Back bool // add: the received date lies BEFORE every earlier delivery's (dates are metadata; order is arrival order)
+	Size int // add: when > 0 the body is exactly Size bytes
+	// add, file store, mailbox at its cap: the disk is full for the mailbox's index at the first
+	// index write of the delivery - the one that commits the eviction (index.gob.tmp is a symbolic
+	// link to /dev/full, which the store clears away when it gives up).  The delivery goes through.
+	IdxFault bool
+	Same     bool // add: the received date equals that of the other "same" deliveries (copies of one mail to several recipients share it); age order is arrival order
+	Zero     bool // add: the received date is the zero time (what is written is what reads back)
+	Back     bool // add: the received date lies BEFORE every earlier delivery's (dates are metadata; order is arrival order)
 }
 
 func (o sop) String() string {
 	switch o.Kind {
 	case "add":
+		if o.IdxFault {
+			return fmt.Sprintf("add(%s,b%d,index-write-fails-once)", storeBoxes[o.MB], o.Body)
+		}
 		if o.Size > 0 && o.Same {
 			return fmt.Sprintf("add(%s,%dB,same-date)", storeBoxes[o.MB], o.Size)
 		}
@@ -209,7 +218,22 @@ func (r *storeRun) applyOp(o sop, check bool) (probs [][2]string, changed bool) 
 			body = sizedBody(o.Size)
 		}
 		d := sys.Delivery(mb, "from@x.test", []string{"to1@x.test", "to2@y.test"}, fmt.Sprintf("subj %d", r.clock), body, date)
+		planted := ""
+		if o.IdxFault && be == "file" && r.mo.Cap > 0 && len(r.mo.Boxes[mb]) >= r.mo.Cap {
+			x := sha1.Sum([]byte(mb))
+			h := hex.EncodeToString(x[:])
+			dir := filepath.Join(r.h.Dir, "mail", h[:3], h[:6], h)
+			if fi, err := os.Stat(dir); err == nil && fi.IsDir() {
+				planted = filepath.Join(dir, "index.gob.tmp")
+				if err := os.Symlink("/dev/full", planted); err != nil {
+					planted = ""
+				}
+			}
+		}
 		id, err := st.AddMessage(d)
+		if planted != "" {
+			_ = os.Remove(planted)
+		}
 		if err != nil {
 			bad("add|error", fmt.Sprintf("AddMessage(%q) failed: %v", mb, err))
 			return probs, false
